@@ -182,6 +182,22 @@ let run_leaf toks =
          (match sieve_loop (nat_of_int (2 * maxsize + 10)) eratSmallSteps stop ks sp [] with
           | None -> "fuel2"
           | Some res -> String.concat " " (List.map pr (run_bytes start stop res))))
+  | ["kprint"; l1; kb; a; b] ->
+      (* the whole pipeline of the model: segments, cross-off, byte arrays with end masks, zero padding, word-wise decoding
+         (De Bruijn variant of nextPrime) - small intervals only *)
+      let stop = z b and start = z a in
+      (match segments (nat_of_int 5001) (z l1) (z kb) start stop with
+       | None -> "fuel"
+       | Some segs ->
+         let ks = List.map (fun sg -> { k_low = sg.s_low; k_size = sg.s_bytes; k_high = sg.s_high }) segs in
+         let maxsize = List.fold_left (fun m sg -> max m (Zr.to_int sg.s_bytes)) 0 segs in
+         let sp = primes_between (Zr.of_int 7) (Zr.sqrt stop) in
+         (match sieve_loop (nat_of_int (2 * maxsize + 10)) eratSmallSteps stop ks sp [] with
+          | None -> "fuel2"
+          | Some res ->
+            let bytes = pad8 (run_bytes start stop res) in
+            let low0 = (List.hd segs).s_low in
+            String.concat " " (List.map pr (decode_array (nat_of_int (List.length bytes / 8)) nextPrime_bruijn bytes low0))))
   | ["gss"; user; l1; l2; l3; s1; s2; s3] -> pr (get_sieve_size (z user) { c_l1 = z l1; c_l2 = z l2; c_l3 = z l3; c_l1s = z s1; c_l2s = z s2; c_l3s = z s3 })
   | ["nbuf"; pcu; a; b] -> let (c, s) = next_buffer (z pcu) (z a) (z b) in pr c ^ " " ^ pr s
   | ["is_prime"; x] -> if is_prime (z x) then "1" else "0"
